@@ -307,9 +307,6 @@ let run_case (s : sx) : string =
                   add (prefix ^ "method") (string_of_int (int_of_n rq.Codec.rq_method.Codec.m_id));
                   add (prefix ^ "hdrs") (show_hdrs rq.Codec.rq_headers);
                   add (prefix ^ "args") (show_vals rq.Codec.rq_args)
-              | Codec.SDDirty rq ->
-                  add (prefix ^ "sd") "dirty"; add (prefix ^ "name") (hex_of_bytes rq.Codec.rq_name);
-                  add (prefix ^ "method") (string_of_int (int_of_n rq.Codec.rq_method.Codec.m_id))
               | Codec.SDNoMethod (h, name) ->
                   add (prefix ^ "sd") "nomethod"; add (prefix ^ "name") (hex_of_bytes name);
                   add (prefix ^ "msg") (hex_of_bytes (Codec.cant_find name));
@@ -418,8 +415,7 @@ let run_case (s : sx) : string =
            add "args" (show_vals (Stdlib.List.map (resolve orargs) rq.Codec.rq_args))
        | Codec.JSErr (_, e) ->
            add "sd" "err"; add "msg" (hex_of_bytes (Codec.jerr_text e));
-           (match e with Codec.JProto (c, _) -> add "code" (string_of_z c) | _ -> ())
-       | Codec.JSPanic -> add "sd" "panic")
+           (match e with Codec.JProto (c, _) -> add "code" (string_of_z c) | _ -> ()))
     with Type_mismatch m -> add "sd" ("TYPE-MISMATCH:" ^ String.map (fun c -> if c = ' ' then '_' else c) m));
     (match field "result" s with
      | None -> ()
